@@ -113,7 +113,11 @@ def cases(tier, seed, phase):
     for j in range(1500 if tier == 'quick' else 30000):
         def mk(j=j):
             rng = rng_for(seed, 'c06u', j)
-            what = rng.choice(['ext', 'b64', 'split', 'mail'])
+            what = rng.choice(['ext', 'b64', 'split', 'mail', 'xreply'])
+            if what == 'xreply':
+                return {'kind': 'unit', 'what': 'xreply', 'code': rng.choice(['250', '250', '451', '550', '535', '421', '200', '599']),
+                        'msg': rng.choice(['2.6.0 Message accepted', '', 'say "hi"', 'back\\slash', 'semi; colon = x', ' leading space', '5.7.1 nope; command="X"', 'tab\there']),
+                        'cmd': rng.choice([None, None, 'DATA', 'RCPT', 'a"b'])}
             if what == 'ext':
                 name = rng.choice(['SIZE', 'AUTH', '8BITMIME', 'X-Foo', 'pipelining', 'A1-b', 'STARTTLS'])
                 param = rng.choice([None, None, '1000', 'PLAIN LOGIN', 'a  b', '=x', 'x' * 30])
@@ -683,6 +687,32 @@ def run_unit(case, model):
     hits = []
     mismatch = None
     w = case['what']
+    if w == 'xreply':
+        # the SMTP reply inside an HTTP response: WsgiEdge's _build_http_response writes the header, HttpRelayClient reads it back
+        from slimta.edge.wsgi import _build_http_response
+        from slimta.relay.http import HttpRelayClient
+        from slimta.smtp.reply import Reply
+        r = Reply(case['code'], case['msg'], command=case['cmd'])      # (a str: the header builder refuses bytes)
+        res = _build_http_response(r)
+        hdr = dict(res.headers).get('X-Smtp-Reply')
+
+        class FakeResponse(object):
+            def getheader(self, name, default=None):
+                return hdr if name == 'X-Smtp-Reply' else default
+        back = HttpRelayClient._parse_smtp_reply_header(HttpRelayClient.__new__(HttpRelayClient), FakeResponse())
+        msg = r.message or ''
+        mm = model.ask('wire xreply %s %s %s' % (case['code'].encode().hex(), msg.encode('utf-8').hex() or '-',
+                                                 'none' if not r.command else r.command.hex() if isinstance(r.command, bytes) else r.command.encode().hex()))
+        mh, mc = mm.split(' ')
+        mhdr = bytes.fromhex(mh).decode('utf-8')
+        if mhdr != hdr:
+            mismatch = {'op': 'wire xreply (header)', 'impl': hdr, 'model': mhdr}
+        elif (back.code if back is not None else 'none') != (bytes.fromhex(mc).decode() if mc != 'none' else 'none'):
+            mismatch = {'op': 'wire xreply (code read back)', 'impl': back.code if back is not None else None, 'model': mc}
+        if back is None or back.code != case['code']:
+            hits.append(hit('c06.http-reply-code-changed', 'the reply code the HTTP edge wrote is not the code the relay reads', observed=getattr(back, 'code', None), expected=case['code']))
+        key = ('unit', 'xreply', case['code'], case['msg'], case['cmd'])
+        return CaseResult(mismatch, hits, key, ['unit-xreply'])
     if w == 'ext':
         e = Extensions()
         e.add(case['name'], case['param'])
